@@ -52,7 +52,9 @@ Logged ==
   \/ IsEvent("tok.init") /\ StartProc(Ev.p) /\ avail'[Ev.p] = Ev.available
   \/ IsEvent("h.start") /\ Stutter
   \/ IsEvent("tok.init.error") /\ StartFails(Ev.p)
-  \/ IsEvent("h.submit") /\ Submit(Ev.job)
+  \/ IsEvent("h.submit") /\ Stutter          \* (the call; its two steps are logged by the scheduler itself)
+  \/ IsEvent("sched.dep.add") /\ SubmitAdd(Ev.job)
+  \/ IsEvent("sched.dep.check") /\ SubmitCheck(Ev.job) /\ dstat'[Ev.job] = Ev.status
   \/ IsEvent("tok.acq.lock") /\ Lock(Ev.p, "acq", Ev.job)
   \/ IsEvent("tok.acq.count") /\ Recount(Ev.p) /\ avail'[Ev.p] = Ev.available
   \/ IsEvent("tok.acq.fail") /\ AcqFail(Ev.p)
